@@ -303,7 +303,7 @@ PROPS["C01"] = dict(
                "orders, NaN payloads, embedded NULs, strided views) with twelve header shapes (END/SIZE words, quotes, newlines, "
                "non-ASCII, nested literals, look-alike keys) through the eight entry points.",
     level_note="The deciding code (Records::Write, ReadAllAsBinary, read_sfile_header) is C++ over FILE*: not under contract; "
-               "eval-based header parsing is Python's own parser (trusted). Hence level 'bounded'.",
+               "eval-based header parsing is Python's own parser (trusted). Hence level 'other': the statement itself is decided by the bounded oracle.",
     explanation="Mixed, reported separately in the evidence: discharged obligations cover the Python header/compatibility glue only; "
                 "the round-trip statement itself is a bounded oracle over a seeded domain of tables x headers x entry points.",
     limit_quick=400, limit_thorough=20000)
@@ -336,7 +336,7 @@ PROPS["C04"] = dict(
                "tables over {i1..u8, f4, f8, S1..S12} x {scalar, 1-d, 2-d} x both byte orders with type extremes, many decades, "
                "NaN, signed infinities, signed zero, strings with leading / embedded / trailing blanks and delimiter characters, six "
                "delimiters, four entry points; integers and strings compared exactly, floats to 16 / 7 significant digits.",
-    level_note="The formatting and scanning code (records.cpp) is not under contract; hence level 'bounded'.",
+    level_note="The formatting and scanning code (records.cpp) is not under contract; hence level 'other': the statement itself is decided by the bounded oracle.",
     explanation="Mixed, reported separately: obligations discharged for the Python glue; the round trip is a bounded oracle.",
     limit_quick=400, limit_thorough=20000)
 
